@@ -182,7 +182,7 @@ func runProgram(t *core.Tape, info *core.RunInfo) *core.Violation {
 	steps := 1 + t.Intn("prog", 40)
 	aliased := 0
 	for st := 1; st <= steps; st++ {
-		kind := t.Intn("prog", 17)
+		kind := t.Intn("prog", 18)
 		r, a, b := t.Intn("prog", nP), t.Intn("prog", nP), t.Intn("prog", nP)
 		sr, sa, sb := t.Intn("prog", nS), t.Intn("prog", nS), t.Intn("prog", nS)
 		iv := drawInt(t)
@@ -238,8 +238,35 @@ func runProgram(t *core.Tape, info *core.RunInfo) *core.Violation {
 				continue
 			}
 			desc, op = fmt.Sprintf("s%d.Inv(s%d)", sr, sb), func(x *replica) { x.scs[sr].Inv(x.scs[sb]) }
-		default:
+		case 16:
 			desc, op = fmt.Sprintf("s%d=s%d.Clone()", sr, sa), func(x *replica) { x.scs[sr] = x.scs[sa].Clone() }
+		default:
+			// SetBytes of 0..70 bytes (a big-endian number in every BLS12-381 back-end; for the Ed25519
+			// implementations the same NUMBER is handed over in each one's own byte order). Seed C18d:
+			// one back-end only looked at the first 32 bytes of a longer input.
+			var bs []byte
+			switch t.Intn("prog.val", 5) {
+			case 0:
+				bs = t.Bytes("prog.val", t.Intn("prog.val", 33))
+			case 1:
+				bs = t.Bytes("prog.val", 33+t.Intn("prog.val", 38))
+			case 2:
+				bs = append(make([]byte, 31), 1, byte(t.Intn("prog.val", 256))) // 00..01 || x
+			case 3:
+				bs = make([]byte, 33+t.Intn("prog.val", 32))
+				bs[len(bs)-1] = 1 + byte(t.Intn("prog.val", 255))
+			default:
+				bs = t.Bytes("prog.val", 48+16*t.Intn("prog.val", 2))
+			}
+			desc, op = fmt.Sprintf("s%d.SetBytes(%x)", sr, bs), func(x *replica) {
+				b := kit.CopyBytes(bs)
+				if x.scs[sr].ByteOrder() == kyber.LittleEndian {
+					for i, j := 0, len(b)-1; i < j; i, j = i+1, j-1 {
+						b[i], b[j] = b[j], b[i]
+					}
+				}
+				x.scs[sr].SetBytes(b)
+			}
 		}
 		trace = append(trace, desc)
 		if (kind <= 1 && (r == a || r == b || a == b)) || ((kind == 2 || kind == 3 || kind == 4) && r == a) || (kind >= 9 && kind <= 11 && (sr == sa || sr == sb || sa == sb)) || (kind == 14 && (sr == sa || sr == sb)) || ((kind == 12 || kind == 15) && sr == sa) {
